@@ -309,8 +309,7 @@ func (hp *HTTPProxy) configureProxy() error {
 
 		if hp.config.MITMDomains != nil {
 			hp.proxy.MITMFilter = func(req *http.Request) bool {
-				// Domain names are case-insensitive, the rules are written in lower case.
-				return hp.config.MITMDomains.Match(strings.ToLower(req.URL.Hostname()))
+				return matchHost(hp.config.MITMDomains, req.URL.Hostname())
 			}
 		}
 		hp.proxy.MITMTLSHandshakeTimeout = hp.config.TLSServerConfig.HandshakeTimeout
@@ -588,9 +587,7 @@ func (hp *HTTPProxy) denyLocalhost() martian.RequestModifier {
 
 func (hp *HTTPProxy) denyDomains(r Matcher) martian.RequestModifier {
 	return martian.RequestModifierFunc(func(req *http.Request) error {
-		// Domain names are case-insensitive, the rules are written in lower case;
-		// the transport dials the ASCII form of a non-ASCII name.
-		if h := strings.ToLower(req.URL.Hostname()); r.Match(h) || r.Match(asciiHost(h)) {
+		if matchHost(r, req.URL.Hostname()) {
 			return ErrProxyDenied
 		}
 		return nil
@@ -603,8 +600,7 @@ func (hp *HTTPProxy) directDomains(fn ProxyFunc) ProxyFunc {
 	}
 
 	return func(req *http.Request) (*url.URL, error) {
-		// Domain names are case-insensitive, the rules are written in lower case.
-		if hp.config.DirectDomains.Match(strings.ToLower(req.URL.Hostname())) {
+		if matchHost(hp.config.DirectDomains, req.URL.Hostname()) {
 			return nil, nil
 		}
 		return fn(req)
@@ -624,10 +620,45 @@ func (hp *HTTPProxy) directLocalhost(fn ProxyFunc) ProxyFunc {
 	}
 }
 
+// matchHost reports whether the domain rules match the host. A host has several spellings: the one
+// the client used, the lower-case one (domain names are case-insensitive, rules are usually written
+// in lower case) and the ASCII one the transport dials for a non-ASCII name; the rooted form
+// (trailing dot) names the same host.
+func matchHost(m Matcher, host string) bool {
+	host = strings.TrimSuffix(host, ".")
+	ss := []string{host}
+	for _, s := range []string{lowerASCII(host), strings.TrimSuffix(asciiHost(host), ".")} {
+		if !slices.Contains(ss, s) {
+			ss = append(ss, s)
+		}
+	}
+
+	if mm, ok := m.(interface{ MatchAny(ss ...string) bool }); ok {
+		return mm.MatchAny(ss...)
+	}
+	for _, s := range ss {
+		if m.Match(s) {
+			return true
+		}
+	}
+	return false
+}
+
+// lowerASCII lower-cases the ASCII letters of s, and only those: under Unicode rules other letters
+// become ASCII ones (U+0130) and a different host name would be taken for this one.
+func lowerASCII(s string) string {
+	return strings.Map(func(r rune) rune {
+		if 'A' <= r && r <= 'Z' {
+			return r + ('a' - 'A')
+		}
+		return r
+	}, s)
+}
+
 // asciiHost returns the host in lower case and, like the transport does before it dials, with a
 // non-ASCII name mapped to ASCII: the name the rules are written for.
 func asciiHost(host string) string {
-	host = strings.ToLower(host)
+	host = lowerASCII(host)
 	if strings.IndexFunc(host, func(r rune) bool { return r >= utf8.RuneSelf }) >= 0 {
 		if a, err := idna.Lookup.ToASCII(host); err == nil {
 			host = a
